@@ -29,6 +29,56 @@ macro_rules! transparent {
     }};
 }
 
+/// check mode: the memoized grammar accepts under check() exactly what the plain grammar accepts under parse(),
+/// with the same number of errors (the Check-mode path of `Memoized::go` must maintain the table like the Emit one)
+macro_rules! transparent_check {
+    ($p:expr, $q:expr, $x:expr) => {{
+        let r1 = $p.check($x);
+        let r2 = $q.parse($x);
+        contract(&r1);
+        let (o1, e1) = r1.into_output_errors();
+        let (o2, e2) = r2.into_output_errors();
+        check!("C11:memoized-changes-acceptance-in-check-mode", o1.is_some() == o2.is_some());
+        check!("C11:memoized-changes-error-count-in-check-mode", e1.len() == e2.len());
+        if let (Some(a), Some(b)) = (e1.last(), e2.last()) {
+            check!("C11:memoized-changes-error-span-in-check-mode", a.start() == b.start() && a.end() == b.end());
+        }
+        cover!("cover:check-accept", o1.is_some());
+        cover!("cover:check-reject", o1.is_none());
+    }};
+}
+
+/// @harness props=C11:Q,C04:T,C20:T n=3 err=Cheap
+/// @shape check() of  (M t2) | (M t3)   with ONE memoized parser M = (t0 t1).memoized().boxed() shared by both alternatives   vs   parse() of the plain grammar
+/// @symbolic t0..t3: u8
+/// @aims Check mode: the second alternative re-enters the shared memoized parser at the same position after it SUCCEEDED there (the in-progress marker must be gone)
+pub fn c11_shared_check_body<S: Src>(s: &mut S) {
+    let t = [s.u8(), s.u8(), s.u8(), s.u8()];
+    let inp = Inp::<3>::any(s);
+    let x = inp.get();
+    let m = memo(then(j(t[0]), j(t[1]))).boxed();
+    let p = or(then(m.clone(), j(t[2])), then(m, j(t[3])));
+    let plain = then(j(t[0]), j(t[1]));
+    let q = or(then(plain.clone(), j(t[2])), then(plain, j(t[3])));
+    transparent_check!(p, q, x);
+}
+
+/// @harness props=C11:Q,C20:T n=3 err=Cheap
+/// @shape (M t2) | (any M)   with ONE memoized parser M = (t0 t1).memoized().boxed() used at position 0 and at position 1   vs   plain
+/// @symbolic t0..t2: u8
+/// @aims a failure of M that stopped k tokens in is remembered for the position where M STARTED, not where it stopped: M must still succeed one token later
+pub fn c11_shifted_body<S: Src>(s: &mut S) {
+    let t = [s.u8(), s.u8(), s.u8()];
+    let inp = Inp::<3>::any(s);
+    let x = inp.get();
+    let m = memo(then(j(t[0]), j(t[1]))).boxed();
+    let p = or(then(m.clone(), j(t[2])), then(any_(), m));
+    let plain = then(j(t[0]), j(t[1]));
+    let q = or(then(plain.clone(), j(t[2])), then(any_(), plain));
+    transparent!(p, q, x);
+    cover!("cover:second-alternative-after-partial-first", x.len() == 3 && x[0] == t[0] && x[1] == t[0] && x[2] == t[1] && t[0] != t[1]);
+}
+
 /// @harness props=C11:Q,C20:T n=3 err=Cheap
 /// @shape (M t2) | (M t3)   with ONE memoized parser M = (t0 t1).memoized().boxed() shared by both alternatives   vs   plain
 /// @symbolic t0..t3: u8
@@ -105,7 +155,7 @@ pub fn c11_zero_sized_body<S: Src>(s: &mut S) {
 }
 
 /// @harness props=C11:Q,C20:T n=3 err=Cheap timeout=900
-/// @shape expr = (expr t1 atom).memoized() | atom ; atom = t0        (left recursive; recursive())
+/// @shape expr = (expr t1 atom).memoized() | atom ; atom = t0        (left recursive; Recursive::declare / define)
 /// @symbolic t0, t1: u8
 /// @aims the in-progress marker cuts left recursion: parse() returns for every input (recursion unwinding assertion holds)
 pub fn c11_left_recursion_body<S: Src>(s: &mut S) {
@@ -113,10 +163,10 @@ pub fn c11_left_recursion_body<S: Src>(s: &mut S) {
     let inp = Inp::<3>::any(s);
     let x = inp.get();
     let (t0, t1) = (t[0], t[1]);
-    let p = recursive::<_, _, X, _, _>(move |expr| {
-        let atom = j(t0);
-        expr.then(j(t1)).then(atom.clone()).map(|((a, b), c): ((Tr, Tr), Tr)| a.cat(b).cat(c).tag(1)).memoized().or(atom)
-    });
+    // (declare/define rather than recursive(): same `Recursive::go`, but a sized Rc handle — see hand/c12.rs)
+    let mut p = chumsky::recursive::Recursive::declare();
+    let atom = j(t0);
+    p.define(p.clone().then(j(t1)).then(atom.clone()).map(|((a, b), c): ((Tr, Tr), Tr)| a.cat(b).cat(c).tag(1)).memoized().or(atom));
     let r = p.parse(x);
     contract(&r);
     // the base case is always reachable: a lone atom is accepted
@@ -125,13 +175,68 @@ pub fn c11_left_recursion_body<S: Src>(s: &mut S) {
     }
     cover!("cover:accept", r.has_output());
     cover!("cover:reject", !r.has_output());
+    // (the drop of a recursive parser is decided under C12: CBMC unrolls its Rc drop glue to the recursion bound)
+    drop(r);
+    core::mem::forget(p);
+}
+
+/// @harness props=C11:Q,C20:Q n=3 err=Cheap timeout=900
+/// @shape expr = (expr t1 atom).memoized().map_err(id) | atom       (map_err DIRECTLY around the left-recursion cut)
+/// @symbolic t0, t1: u8
+/// @aims the failure produced by the left-recursion cut must leave a pending error like any other failure (map_err unwraps it)
+pub fn c11_left_recursion_wrapped_body<S: Src>(s: &mut S) {
+    let t = [s.u8(), s.u8()];
+    let inp = Inp::<3>::any(s);
+    let x = inp.get();
+    let (t0, t1) = (t[0], t[1]);
+    let mut expr = chumsky::recursive::Recursive::declare();
+    let atom = j(t0);
+    let step = expr.clone().then(j(t1)).then(atom.clone()).map(|((a, b), c): ((Tr, Tr), Tr)| a.cat(b).cat(c).tag(1)).memoized();
+    expr.define(step.map_err(|e| e).or(atom));
+    let r = expr.parse(x);
+    contract(&r);
+    if x.len() == 1 && x[0] == t0 {
+        check!("C11:left-recursive-grammar-accepts-atom", r.has_output() && !r.has_errors());
+    }
+    cover!("cover:accept", r.has_output());
+    cover!("cover:reject", !r.has_output());
+    drop(r);
+    core::mem::forget(expr);
+}
+
+/// @harness props=C11:T,C20:T n=2 err=Cheap timeout=1800
+/// @shape expr = (expr t1 atom).memoized().recover_with(via_parser(t1 t1)) | atom       (recover_with DIRECTLY around the left-recursion cut)
+/// @symbolic t0, t1: u8
+/// @aims as above for recover_with
+pub fn c11_left_recursion_recover_body<S: Src>(s: &mut S) {
+    let t = [s.u8(), s.u8()];
+    let inp = Inp::<2>::any(s);
+    let x = inp.get();
+    let (t0, t1) = (t[0], t[1]);
+    let mut expr = chumsky::recursive::Recursive::declare();
+    let atom = j(t0);
+    let step = expr.clone().then(j(t1)).then(atom.clone()).map(|((a, b), c): ((Tr, Tr), Tr)| a.cat(b).cat(c).tag(1)).memoized();
+    expr.define(step.recover_with(via_parser(j(t1).then(j(t1)).map(|(a, _)| a))).or(atom));
+    let r = expr.parse(x);
+    contract(&r);
+    cover!("cover:accept", r.has_output());
+    cover!("cover:reject", !r.has_output());
+    drop(r);
+    core::mem::forget(expr);
+}
+
+crate::harnesses_stub_caller! {
+    c11_left_recursion_wrapped [9] = c11_left_recursion_wrapped_body;
+    c11_left_recursion_recover [8] = c11_left_recursion_recover_body;
+    c11_left_recursion [9] = c11_left_recursion_body;
 }
 
 crate::harnesses! {
     c11_shared [8] = c11_shared_body;
+    c11_shared_check [8] = c11_shared_check_body;
+    c11_shifted [8] = c11_shifted_body;
     c11_positions [8] = c11_positions_body;
     c11_wrapped [8] = c11_wrapped_body;
     c11_nested [8] = c11_nested_body;
     c11_zero_sized [8] = c11_zero_sized_body;
-    c11_left_recursion [9] = c11_left_recursion_body;
 }
